@@ -24,10 +24,12 @@ class Frame:
 
 
 class Oblig:
-    __slots__ = ("name", "pc", "goal", "trace", "func", "kind", "extra")
+    __slots__ = ("name", "pc", "goal", "trace", "func", "kind", "extra", "ctx", "clause")
 
-    def __init__(self, name, pc, goal, trace, func, kind, extra=None):
+    def __init__(self, name, pc, goal, trace, func, kind, extra=None, ctx=None, clause=None):
         self.name, self.pc, self.goal, self.trace, self.func, self.kind, self.extra = name, pc, goal, trace, func, kind, extra
+        self.ctx = ctx
+        self.clause = clause
 
 
 FEAS_TIMEOUT_MS = 2000
@@ -53,6 +55,7 @@ class Interp:
         self.B = B
         self._feas_solver = None
         self.lazy = 0
+        self.cur_entry = None
 
     # ------------------------------------------------------------------ util
     def fresh_v(self, base="v", hint=None):
@@ -99,8 +102,15 @@ class Interp:
             outs += kf(st)
         return outs
 
-    def oblige(self, st, name, goal, kind="post", extra=None):
-        self.obligs.append(Oblig(f"{self.prop}/{self.cur_short()}/{name}", list(st.pc), goal, list(st.trace), self.cur_q, kind, extra))
+    def oblige(self, st, name, goal, kind="post", extra=None, clause=None):
+        if extra is None and self.cur_entry is not None:
+            extra = {"args": {k: v.t for k, v in self.cur_entry.items() if isinstance(v, Sym)}}
+        if extra is not None:
+            extra["heap0"] = {f: z3.Const("H_" + f, field_sort(f)) for f in list(st.heap) if not f.startswith("$")}
+            extra["ghost0"] = {g: v.t for g, v in ((st.old[2] if st.old else {}) or {}).items() if isinstance(v, Sym)}
+            extra["A0"] = st.A0
+        ctx = (st, self.cur_entry) if self.cur_entry is not None else None
+        self.obligs.append(Oblig(f"{self.prop}/{self.cur_short()}/{name}", list(st.pc), goal, list(st.trace), self.cur_q, kind, extra, ctx, clause))
 
     def cur_short(self):
         q = self.cur_q or "?"
